@@ -802,6 +802,45 @@ func ruleRemoveOwner(c *Ctx, rule string) {
 		"(*Morass).Pull":    "removes a run it has just exhausted, under AutoClear",
 		"(*Morass).CleanUp": "removes the whole temporary directory",
 	}
+	// a private helper that only the clean-up paths call is part of them
+	owner := map[*ssa.Function]string{}
+	for _, fn := range srcFuncs(sp) {
+		if why, ok := allowed[strings.TrimPrefix(funcName(fn), "morass.")]; ok && fn.Parent() == nil {
+			owner[fn] = why
+		}
+	}
+	for changed := true; changed; {
+		changed = false
+		for _, h := range srcFuncs(sp) {
+			if h.Parent() != nil || owner[h] != "" || h.Object() == nil || h.Object().Exported() {
+				continue
+			}
+			callers, all := 0, true
+			var via string
+			for _, g := range srcFuncs(sp) {
+				root := g
+				for root.Parent() != nil {
+					root = root.Parent()
+				}
+				for _, b := range g.Blocks {
+					for _, ins := range b.Instrs {
+						if ci, ok := ins.(ssa.CallInstruction); ok && ci.Common().StaticCallee() == h {
+							callers++
+							if owner[root] == "" {
+								all = false
+							} else {
+								via = funcName(root)
+							}
+						}
+					}
+				}
+			}
+			if callers > 0 && all {
+				owner[h] = "called only from " + via
+				changed = true
+			}
+		}
+	}
 	n := 0
 	for _, fn := range srcFuncs(sp) {
 		root := fn
@@ -817,6 +856,12 @@ func ruleRemoveOwner(c *Ctx, rule string) {
 				n++
 				c.Funcs[funcName(fn)] = true
 				name := strings.TrimPrefix(funcName(root), "morass.")
+				if w := owner[root]; w != "" {
+					if _, named := allowed[name]; !named {
+						c.ok(rule, fmt.Sprintf("%s/%s#%d", funcName(fn), call.Call.StaticCallee().Name(), n), call.Pos(), "a private helper of the clean-up paths ("+w+")")
+						continue
+					}
+				}
 				key := fmt.Sprintf("%s/%s#%d", funcName(fn), call.Call.StaticCallee().Name(), n)
 				if why, ok := allowed[name]; ok || root.Name() == "New" {
 					if !ok {
@@ -1246,6 +1291,8 @@ func ruleASCIICheck(c *Ctx, rule string) {
 			return derives(x.X, p, d+1)
 		case *ssa.Convert:
 			return derives(x.X, p, d+1)
+		case *ssa.ChangeType:
+			return derives(x.X, p, d+1)
 		case *ssa.Slice:
 			return derives(x.X, p, d+1)
 		case *ssa.Phi:
@@ -1590,6 +1637,59 @@ func ruleIntronPerPair(c *Ctx, rule string) {
 	for _, p := range loop.head.Preds {
 		if loop.body[p] && !ap.Block().Dominates(p) {
 			every = false
+		}
+	}
+	if !every {
+		// a loop over all exons that only skips the first one (which has no predecessor) is the same thing:
+		// remove the edges taken when the counter equals its initial value 0 and look again
+		skipFirst := func(bf branchFact) bool {
+			k, isK := constIntVal(bf.cond.Y)
+			if !isK || k != 0 || effectiveOp(bf, true) != token.EQL {
+				return false
+			}
+			phi, off, ok := linearIn(bf.cond.X)
+			if !ok || phi.Block() != loop.head {
+				return false
+			}
+			for i, pr := range loop.head.Preds {
+				if !loop.body[pr] {
+					init, isK := constIntVal(phi.Edges[i])
+					if !isK || init+off != 0 {
+						return false
+					}
+				}
+			}
+			return true
+		}
+		seen := map[*ssa.BasicBlock]bool{}
+		var walk func(b *ssa.BasicBlock) bool // true: the header is reached again without the append
+		walk = func(b *ssa.BasicBlock) bool {
+			if b == loop.head {
+				return true
+			}
+			if !loop.body[b] || seen[b] || b == ap.Block() {
+				return false
+			}
+			seen[b] = true
+			var bo *ssa.BinOp
+			if ifi, ok := b.Instrs[len(b.Instrs)-1].(*ssa.If); ok {
+				bo, _ = ifi.Cond.(*ssa.BinOp)
+			}
+			for e, sc := range b.Succs {
+				if bo != nil && skipFirst(branchFact{bo, e}) {
+					continue
+				}
+				if walk(sc) {
+					return true
+				}
+			}
+			return false
+		}
+		every = true
+		for _, sc := range loop.head.Succs {
+			if loop.body[sc] && walk(sc) {
+				every = false
+			}
 		}
 	}
 	if every {
